@@ -20,7 +20,7 @@ for p in props:
             "evidence_file": f"/verif/evidence/{pid}.json",
             "replay_cmd_template": f"./run.sh {pid} quick -replay {{path}}",
             "engine": "vcheck",
-            "level_claimed": {"category": "other", "text": a["level"], "design_ref": f"DESIGN.md section 5, {pid}"},
+            "level_claimed": {"category": "other", "text": a["level"], "design_ref": f"DESIGN.md sections 5 ({pid}, plan) and 10 (as built); RULES.md lists every obligation"},
             "level_note": "Armed rules: " + a["rules"] + ". Trusted base: Go type checker, x/tools v0.29.0 go/cfg, the rule tables in checker/props (anchors, allowed callers, frozen exceptions, each confirmed by reading). " +
                           "Every syntactic CFG path is treated as feasible; interface calls resolve to the interface method. Decides the structural clause only, never the run-time behaviour as a whole.",
             "technique": a["technique"],
